@@ -125,8 +125,11 @@ func init() {
 
 	// ---------------------------------------------------------------- C17 revision number
 	c17 := kvOpts{
-		Sim:       kv.SimOptions{JudgeEvents: true, DumpEachStep: true},
-		Cfg:       defaultCfg(2, 1, 1, 1, true),
+		Sim: kv.SimOptions{JudgeEvents: true, DumpEachStep: true},
+		Cfg: func(r *rng.R, local int) kv.Config {
+			// (in half of the scenarios a KeysOnly feed listens as well: its events carry the revision number too)
+			return kv.Config{Disk: local%2 == 1, Buckets: 1, Handles: 1, Colls: 2, FeedsPer: 1 + (local/2)%2, Marker: true, KeysOnly: (local/2)%2 == 1}
+		},
 		Variants:  kv.Variants,
 		Setups:    kv.Setups,
 		FollowUps: kv.FollowUps,
@@ -136,7 +139,7 @@ func init() {
 	c17r.Steps = 70
 	sup.Register(&sup.Check{
 		Prop: "C17", Level: "exploration",
-		Rule:        "(concurrent) 2-6 goroutines over 1-3 handles mutate one key through body writes, touches, xattr-only writes, sub-document writes, deletions and re-creations: the final $document.revid must be the start value plus the number of acknowledged mutations, and the RevNo values of the key's live events must be strictly increasing and end at that number; (sequential) engine A: after every step the model's revision counter (previous+1 on success, unchanged on failure, 1 on creation or re-creation after purge) is compared through four observers: $document.revid, the revid inside $document, RevNo of the live event and RevNo of the key's backfill event; every entry point x pre-state enumerated plus random histories; cell = (op variant, pre-state class, outcome, bucket type)",
+		Rule:        "(concurrent) 2-6 goroutines over 1-3 handles mutate one key through body writes, touches, xattr-only writes, sub-document writes, deletions and re-creations: the final $document.revid must be the start value plus the number of acknowledged mutations, and the RevNo values of the key's live events must be strictly increasing and end at that number; (sequential) engine A: after every step the model's revision counter (previous+1 on success, unchanged on failure, 1 on creation or re-creation after purge) is compared through four observers: $document.revid, the revid inside $document, RevNo of the live event (on ordinary and on KeysOnly feeds) and RevNo of the key's backfill event (every fourth dump KeysOnly); every entry point x pre-state enumerated plus random histories; cell = (op variant, pre-state class, outcome, bucket type)",
 		Assumptions: kvAssume,
 		Parts: []sup.Part{
 			exhaustivePart("exhaustive", c17),
